@@ -580,7 +580,7 @@ func c09Case(c *fw.Ctx, r *rng.R, forceOp int, pinned bool) {
 			isList = forceOp < c09ListOps
 		}
 		if isList {
-			n := []int{0, 1, 2, 3, 5, 8, r.Range(0, 12)}[r.Intn(7)]
+			n := []int{0, 1, 2, 3, 5, 8, r.Range(0, 12), r.Range(0, 12), 33, 64, 100}[r.Intn(11)]
 			vals := c09Vals(r, n, []int{0, 0, 1, 2, 3}[r.Intn(5)])
 			recv, how := buildReceiverList(r, vals)
 			if pinned {
